@@ -13,6 +13,7 @@ import os
 import re
 import shutil
 import socket
+import struct
 import subprocess
 import time
 
@@ -20,7 +21,12 @@ from simlib import core
 from worlda import workload
 from worlda import zygote as zproto
 
+# Termination cap of one compiler job, in seconds of *CPU time of the worker process* (typical
+# jobs: 0.01-0.3 s).  Wall-clock time is not used for the verdict: on an overloaded machine a
+# healthy job can take arbitrarily long.  A job that gets no result within HARD_WALL_S of wall
+# time without having burnt the CPU cap is a harness problem (exit 2), never a violation.
 JOB_TIMEOUT_S = 60
+HARD_WALL_S = 1800
 
 
 # ---------------------------------------------------------------------------
@@ -94,6 +100,15 @@ class WorkerTimeout(Exception):
     pass
 
 
+def _cpu_seconds(pid):
+    try:
+        with open(f"/proc/{pid}/stat") as f:
+            rest = f.read().rsplit(")", 1)[1].split()
+        return (int(rest[11]) + int(rest[12])) / os.sysconf("SC_CLK_TCK")
+    except (OSError, ValueError, IndexError):
+        return None
+
+
 class Worker:
     """Client handle of one compiler worker process."""
 
@@ -101,19 +116,47 @@ class Worker:
         self.hashseed = hashseed
         self.jobs = 0
         self.sock = socket.socket(socket.AF_UNIX, socket.SOCK_STREAM)
-        self.sock.settimeout(JOB_TIMEOUT_S)
+        self.sock.settimeout(HARD_WALL_S)
         self.sock.connect(sock_path)
         zproto.send_msg(self.sock, {"io_dir": io_dir})
         hello = zproto.recv_msg(self.sock)
         if not hello or not hello.get("worker"):
             raise core.HarnessError("zygote handshake failed")
+        self.pid = hello.get("pid")
+        self.sock.settimeout(10)
+
+    def _recv_exact(self, n, cpu0, t0):
+        buf = b""
+        while len(buf) < n:
+            try:
+                chunk = self.sock.recv(n - len(buf))
+            except socket.timeout:
+                cpu = _cpu_seconds(self.pid) if self.pid else None
+                if cpu is not None and cpu0 is not None and cpu - cpu0 > JOB_TIMEOUT_S:
+                    raise WorkerTimeout()
+                if time.monotonic() - t0 > HARD_WALL_S:
+                    raise core.HarnessError(f"no answer from a compiler worker within {HARD_WALL_S}s of wall time "
+                                            f"(cpu used: {None if cpu is None or cpu0 is None else round(cpu - cpu0, 1)}s): machine overloaded?")
+                continue
+            if not chunk:
+                return None
+            buf += chunk
+        return buf
 
     def request(self, obj):
+        cpu0 = _cpu_seconds(self.pid) if self.pid else None
+        t0 = time.monotonic()
         try:
             zproto.send_msg(self.sock, obj)
-            resp = zproto.recv_msg(self.sock)
-        except socket.timeout:
-            raise WorkerTimeout()
+            head = self._recv_exact(4, cpu0, t0)
+            resp = None
+            if head is not None:
+                (n,) = struct.unpack(">I", head)
+                body = self._recv_exact(n, cpu0, t0)
+                if body is not None:
+                    resp = json.loads(body.decode("utf-8", "surrogatepass"))
+        except WorkerTimeout:
+            raise
         except OSError:
             raise WorkerDied()
         if resp is None:
@@ -825,6 +868,19 @@ class Farm:
         need_canon = "C17" in self.props or "C18" in self.props
         if not need_canon:
             return
+        try:
+            self._compare_with_canonical(i, op, res, warm)
+        except (WorkerTimeout, WorkerDied) as e:
+            # an oracle or back-end job hung or died: C16's subject, and the processes involved are replaced
+            self.fail("C16", "does_not_terminate" if isinstance(e, WorkerTimeout) else "worker_process_died",
+                      ["oracle_or_split_job"], {"entry": op["entry"]}, i)
+            if self.oracle_worker is not None:
+                self.oracle_worker.close()
+                self.oracle_worker = None
+            for k2 in sorted(self.workers):
+                self._spawn(k2, self.workers[k2].hashseed)
+
+    def _compare_with_canonical(self, i, op, res, warm):
         canon = self.canonical(op, res["family"])
         if "C17" in self.props:
             self.compare_c17(res, canon, i, op, warm, f"{op['mode']}_vs_fresh_seed{self.canonical_seed}")
